@@ -375,7 +375,7 @@ TEXT = {
               "(MC_Mdns); TLC proves for every interleaving and datagram class that the receiver stays alive, the lock is "
               "never poisoned and the application can still use the store provided every pipeline step is total, and "
               "refutes the pinned tree's partial steps (negative configuration). Code: the loop bodies of the responder, "
-              "the discovery listener and the one-shot resolver are composed from the real functions in the order the "
+              "the discovery listener (sync and tokio flavour) and the one-shot resolver are composed from the real functions in the order the "
               "loops call them (header peek, Packet::parse, build_reply under a read lock / add_response_to_resources "
               "under a write lock of a real RwLock, compressed serialisation, re-parse), each step under catch_unwind, "
               "and driven with datagrams of length 0..12, valid traffic, hostile names (non-UTF-8, NUL, dots, maximal "
@@ -383,7 +383,7 @@ TEXT = {
               "specification's generated messages as queries and as responses, and random datagrams up to 9000 bytes, "
               "with a valid probe every 40 datagrams. TLC checks per datagram: no step panicked (LoopAlive), lock not "
               "poisoned and store usable (LockClean), every reply decodes with the reference decoder (ReplyParses)."),
-        note=_TRUSTED + " Pure pipeline only: the socket loops themselves (recv_from/send_to, thread scheduling) are not exercised; the async variants share the same functions.",
+        note=_TRUSTED + " The socket loops themselves are exercised only by the sampled NetRun event: the real sync and tokio SimpleMdnsResponder and ServiceDiscovery run on loopback multicast, ~500 hostile datagrams are sent, and a loop counts as dead only if it answered a probe before, not after, while a fresh control responder does answer; panics on library threads are captured by the process-wide hook.",
         technique="TLA+ lock/thread model checked by TLC; real pipeline functions driven with generated and mutated datagrams; trace validation",
     ),
     "C15": dict(
@@ -391,7 +391,7 @@ TEXT = {
               "the watched and of a foreign service with 0..3 IPv4/IPv6 addresses, 0..2 ports and attribute maps with "
               "absent/empty/non-empty values; the discoverer's own instance echoed; the service PTR; unrelated names). "
               "Each announcement is produced by InstanceInformation::into_records, crosses the wire as a compressed "
-              "packet, is parsed and ingested by add_response_to_resources (with and without the on_discovery channel) "
+              "packet, is parsed and ingested by add_response_to_resources (sync and tokio flavour, with and without the on_discovery channel) "
               "into a store initialised exactly like ServiceDiscovery::new, and reported via from_records over the "
               "cached records. TLC checks that the reported set equals exactly the instances of the watched service "
               "announced by others, field by field (Mdns.tla), that channel notifications are among them, and -- for "
